@@ -51,13 +51,15 @@ def register(reg):
 def has_setup(E):
     node = E.fresh_seq("node", "bytes")
     t = BM.mk_trie(E)
-    E.assume(mk_bool(BM.wf(BM.dec(node.t), BM.blank_hash(E))))
+    E.assume(mk_bool(BM.wfc(BM.dec(node.t), BM.blank_hash(E))))
     E.assume(mk_bool(BM.dec(node.t) == BM.dec_definition(node.t)))      # the unit works on bytes: reveal dec here
     return {"self": t, "node": node}
 
 
 def has_requires(E, ctx):
-    return [("well-formed-node", mk_bool(BM.wf(BM.dec(ops.seq_term_as(ctx.node, "int")), BM.blank_hash(E))))]
+    Dn = BM.dec(ops.seq_term_as(ctx.node, "int"))
+    return [("well-formed-node", mk_bool(BM.wf(Dn, BM.blank_hash(E)))),
+            ("canonical-node", mk_bool(z3.Implies(BM.BNode.is_BKV(Dn), z3.Not(BM.BNode.is_BKV(BM.nd(BM.BNode.bchild(Dn)))))))]
 
 
 def has_cases(E, ctx):
